@@ -340,6 +340,50 @@ namespace
         ob::StateSamplerPtr sampler_;
     };
 
+    // goal = disc in (x,y) AND a condition on the remaining coordinates (car: heading within a quarter turn of h0; double
+    // integrator: speed below vGoal); the distance it reports is the (x,y) distance alone -- a heuristic, as Goal::isSatisfied
+    // allows: a state can be closer than a satisfying one without satisfying the goal
+    class XYCondGoal : public XYGoalT<ob::GoalSampleableRegion>
+    {
+    public:
+        XYCondGoal(const ob::SpaceInformationPtr &si, const Sys *sys, double cx, double cy, double thr, double h0, double vGoal)
+          : XYGoalT<ob::GoalSampleableRegion>(si, sys, cx, cy, thr), sampler_(si->allocStateSampler()), h0_(h0), vGoal_(vGoal)
+        {
+        }
+        bool cond(const ob::State *st) const
+        {
+            double v[4] = {0, 0, 0, 0};
+            sys_->comps(st, v);
+            if (sys_->kind == S_CAR) return std::cos(v[2] - h0_) > 0.7;
+            if (sys_->kind == S_DINT) return std::hypot(v[2], v[3]) < vGoal_;
+            return true;
+        }
+        bool isSatisfied(const ob::State *st) const override { return distanceGoal(st) <= threshold_ && cond(st); }
+        bool isSatisfied(const ob::State *st, double *distance) const override
+        {
+            double d = distanceGoal(st);
+            if (distance) *distance = d;
+            return d <= threshold_ && cond(st);
+        }
+        void sampleGoal(ob::State *st) const override
+        {
+            sampler_->sampleUniform(st);
+            double r = threshold_ * std::sqrt(rng_.uniform01()), a = rng_.uniformReal(-M_PI, M_PI);
+            double v[4] = {0, 0, 0, 0};
+            sys_->comps(st, v);
+            v[0] = cx_ + r * std::cos(a), v[1] = cy_ + r * std::sin(a);
+            if (sys_->kind == S_CAR) v[2] = h0_;
+            if (sys_->kind == S_DINT) v[2] = v[3] = 0;
+            sys_->setComps(st, v);
+        }
+        unsigned int maxSampleCount() const override { return 1000000000u; }
+
+    private:
+        mutable ompl::RNG rng_;
+        ob::StateSamplerPtr sampler_;
+        double h0_, vGoal_;
+    };
+
     double ulp(double v)
     {
         v = std::fabs(v);
@@ -659,6 +703,8 @@ namespace
         {
             double r = rng.u01();
             goalKind = r < 0.5 ? 0 : r < 0.8 ? 1 : 2;
+            // a third of the sampleable disc goals of the car / double integrator carry a condition on the other coordinates
+            if (goalKind == 0 && sk != S_POINT && rng.coin(0.35)) goalKind = 3;
             // Syclop needs a sampleable goal to locate the goal region; without one it has to return INVALID_GOAL
             if (goalKind == 2 && (pl == P_SYRRT || pl == P_SYEST) && !rng.coin(0.25))
                 goalKind = 0;
@@ -685,7 +731,12 @@ namespace
         else
         {
             thr = H(rng.uni(0.3, 1.0));
-            if (goalKind == 0)
+            if (goalKind == 3)
+            {
+                pdef->setGoal(std::make_shared<XYCondGoal>(si, &sys, gx, gy, thr, rng.uni(-M_PI, M_PI), sk == S_DINT ? rng.uni(0.25, 0.7) * sys.vmax : 0.0));
+                sink.count("c02_cases_goal_with_condition");
+            }
+            else if (goalKind == 0)
                 pdef->setGoal(std::make_shared<XYGoalSampleable>(si, &sys, gx, gy, thr));
             else
                 pdef->setGoal(std::make_shared<XYGoalRegion>(si, &sys, gx, gy, thr));
@@ -1205,6 +1256,34 @@ namespace
                                                                 .arr("last", compVec(sys, last)));
                 if (pdef->getGoal()->isSatisfied(last))
                     sink.count("c02_approx_flag_but_goal_satisfied");
+            }
+            // the interpolated form (PathControl::interpolate(): one control per propagation step) is the library's own way of
+            // applying the recorded controls for their recorded durations: one state per step, every duration one step, same end
+            if (!durViol[0] && !durViol[1] && !misViol[0] && !misViol[1] && !controls.empty())
+            {
+                oc::PathControl ip(*path);
+                ip.interpolate();
+                sink.count("c02_interpolated_forms_checked");
+                std::string bad;
+                if ((long)ip.getStateCount() != 1 + stepsHere || (long)ip.getControlCount() != stepsHere)
+                    bad = "state/control count differs from the number of recorded steps";
+                else
+                {
+                    for (double d : ip.getControlDurations())
+                        if (!(std::fabs(d - h) <= 1e-9 * h)) bad = "a duration of the interpolated form is not one step";
+                    double va[4], vb[4];
+                    sys.comps(ip.getState(ip.getStateCount() - 1), va);
+                    sys.comps(last, vb);
+                    for (unsigned d = 0; d < sys.ncomp() && bad.empty(); ++d)
+                    {
+                        double e = std::fabs(va[d] - vb[d]);
+                        if (sk == S_CAR && d == 2 && e > M_PI) e = 2 * M_PI - e;
+                        if (!(e <= tol)) bad = "the interpolated form ends at a different state";
+                    }
+                }
+                if (!bad.empty())
+                    sink.viol("C02:interpolated-form:PathControl", base().str("what", bad).i("recorded_steps", stepsHere).u("interpolated_states", ip.getStateCount())
+                                                                       .u("controls", controls.size()).num("step_size", h).str("planner", P));
             }
             if (controls.size() >= 2)
             {
